@@ -30,7 +30,11 @@ FEW_KEYS = '7'
 THRESH_HI = 'ffff0000ffff0000'
 
 NAMES = ['AT Translated Set 2 keyboard', 'Logitech USB Optical Mouse', 'Razer DeathAdder', 'Power Button', 'cros_ec', 'Yubico YubiKey OTP',
-         'Gaming KEYBOARD Mouse', 'totalmapper', 'SINO WEALTH Gaming KB ', 'Some "quoted"']
+         'Gaming KEYBOARD Mouse', 'totalmapper', 'SINO WEALTH Gaming KB ', 'Some "quoted"', 'Razer Razer Naga Trinity']
+# a macro mouse's button interface: scroll keys in word 2, an empty word 1, the typing keys in word 0; no LEDs (a mouse)
+MACRO_MOUSE_KEYS = '6000000000000 0 ffffffffffffffe'
+# a keyboard whose bitmap has empty words between the typing keys and a vendor key in a high word
+SPARSE_KBD_KEYS = '10000 0 0 0 0 feffffdfffefffff fffffffffffffffe'
 # count threshold mask (one word): ESC..bit 17, ENTER (28), A (30) = 19 keys fixed; the symbolic top digit (bits 60..63) adds 0..4 keys,
 # one of them in bit 63 of the word
 COUNT_LOW = '%015x' % (sum(1 << b for b in range(1, 18)) | (1 << 28) | (1 << 30))
@@ -141,10 +145,13 @@ def gen_entry(it, idx, stage):
         return Entry(NAMES[2], SYSFS[(idx + 1) % 3], '1f', MOUSE_KEYS_SCROLL, list('NPSUHEK'))
     if stage == 'structure':
         # realistic entries; presence and order of the lines is the symbolic part
-        kind = pick(['kbd', 'mouse-kbdlike', 'power', 'virtual-kbd', 'noname-kbd', 'bt-kbd'])
-        name = {'kbd': NAMES[0], 'mouse-kbdlike': NAMES[2], 'power': NAMES[3], 'virtual-kbd': NAMES[7], 'noname-kbd': None, 'bt-kbd': NAMES[0]}[kind]
-        key = {'kbd': KBD_KEYS, 'mouse-kbdlike': MOUSE_KEYS_SCROLL, 'power': POWER_KEYS, 'virtual-kbd': KBD_KEYS, 'noname-kbd': KBD_KEYS, 'bt-kbd': KBD_KEYS}[kind]
-        ev = {'kbd': '120013', 'mouse-kbdlike': '1f', 'power': '3', 'virtual-kbd': '120013', 'noname-kbd': '120013', 'bt-kbd': '120013'}[kind]
+        kind = pick(['kbd', 'mouse-kbdlike', 'power', 'virtual-kbd', 'noname-kbd', 'bt-kbd', 'macro-mouse', 'sparse-kbd'])
+        name = {'kbd': NAMES[0], 'mouse-kbdlike': NAMES[2], 'power': NAMES[3], 'virtual-kbd': NAMES[7], 'noname-kbd': None, 'bt-kbd': NAMES[0],
+                'macro-mouse': NAMES[10], 'sparse-kbd': NAMES[0]}[kind]
+        key = {'kbd': KBD_KEYS, 'mouse-kbdlike': MOUSE_KEYS_SCROLL, 'power': POWER_KEYS, 'virtual-kbd': KBD_KEYS, 'noname-kbd': KBD_KEYS, 'bt-kbd': KBD_KEYS,
+               'macro-mouse': MACRO_MOUSE_KEYS, 'sparse-kbd': SPARSE_KBD_KEYS}[kind]
+        ev = {'kbd': '120013', 'mouse-kbdlike': '1f', 'power': '3', 'virtual-kbd': '120013', 'noname-kbd': '120013', 'bt-kbd': '120013',
+              'macro-mouse': '100013', 'sparse-kbd': '120013'}[kind]
         sysfs = SYSFS[3] if kind == 'virtual-kbd' else SYSFS[5] if kind == 'bt-kbd' else SYSFS[idx % 3]
         order = pick([list('NPSUHEK'), list('NPSUHKE'), list('NSK'), list('SNEK'), list('NPUHEK'), list('NSEJK'), list('KNSE'), list('NSHK')])
         if it.choose(2) == 1:
@@ -152,8 +159,9 @@ def gen_entry(it, idx, stage):
         e = Entry(name, sysfs, ev, key, order)
         # ground truth for realistic entries whose S: and N: lines precede the B: KEY= line (as the kernel prints them)
         if 'S' in order and order.index('S') < order.index('K') and ('N' not in order or order.index('N') < order.index('K')):
-            e.truth = {'kbd': True, 'noname-kbd': True, 'virtual-kbd': True, 'mouse-kbdlike': False, 'power': False, 'bt-kbd': True}[kind]
-            if kind in ('kbd', 'virtual-kbd', 'bt-kbd') and 'N' not in order:
+            e.truth = {'kbd': True, 'noname-kbd': True, 'virtual-kbd': True, 'mouse-kbdlike': False, 'power': False, 'bt-kbd': True,
+                       'macro-mouse': False, 'sparse-kbd': True}[kind]
+            if kind in ('kbd', 'virtual-kbd', 'bt-kbd', 'sparse-kbd') and 'N' not in order:
                 e.truth = True
         return e
     if stage == 'names':
